@@ -5,6 +5,7 @@ import (
 	"go/token"
 	"go/types"
 	"sort"
+	"strings"
 
 	"govc/smt"
 
@@ -27,6 +28,7 @@ type FuncReport struct {
 	CoverPC     *smt.Term // requires ∧ typing: must be satisfiable (vacuity check)
 	ExitPC      *smt.Term // path condition of normal return: must be satisfiable
 	Trusted     bool
+	Path        string // branch decisions of this report (path-split functions)
 }
 
 type ParamInfo struct {
@@ -36,10 +38,61 @@ type ParamInfo struct {
 	Len  int
 }
 
-// Verify generates all obligations for one function under contract.
-func (e *Engine) Verify(fc *FnContract) (rep *FuncReport) {
+// Verify generates all obligations for one function under contract. With "paths" in the
+// contract the function body is explored one branch decision at a time (no state merging at
+// its own if-statements); every complete decision vector yields one report.
+func (e *Engine) Verify(fc *FnContract) []*FuncReport {
+	if !fc.C.SplitPaths {
+		e.forced = nil
+		return []*FuncReport{e.verifyOnce(fc, "")}
+	}
+	type item struct {
+		forced map[*ssa.If]bool
+		label  string
+	}
+	work := []item{{map[*ssa.If]bool{}, ""}}
+	var out []*FuncReport
+	for len(work) > 0 {
+		it := work[len(work)-1]
+		work = work[:len(work)-1]
+		e.forced = it.forced
+		e.undecided = nil
+		e.undecidedSeen = map[*ssa.If]bool{}
+		rep := e.verifyOnce(fc, it.label)
+		if rep.Err != "" {
+			e.forced = nil
+			return []*FuncReport{rep}
+		}
+		if len(e.undecided) == 0 {
+			out = append(out, rep)
+			if len(out) > 256 {
+				rep.Err = "unsupported: more than 256 paths"
+				e.forced = nil
+				return []*FuncReport{rep}
+			}
+			continue
+		}
+		u := e.undecided[0]
+		for _, side := range []bool{false, true} {
+			m := map[*ssa.If]bool{}
+			for k, v := range it.forced {
+				m[k] = v
+			}
+			m[u] = side
+			l := "F"
+			if side {
+				l = "T"
+			}
+			work = append(work, item{m, fmt.Sprintf("%s.b%d%s", it.label, u.Block().Index, l)})
+		}
+	}
+	e.forced = nil
+	return out
+}
+
+func (e *Engine) verifyOnce(fc *FnContract, path string) (rep *FuncReport) {
 	e.reset()
-	rep = &FuncReport{Name: e.nameOf(fc.Fn), QName: fc.C.QName(), Props: fc.C.Props, Trusted: fc.C.Trusted}
+	rep = &FuncReport{Name: e.nameOf(fc.Fn), QName: fc.C.QName(), Props: fc.C.Props, Trusted: fc.C.Trusted, Path: path}
 	defer func() {
 		if r := recover(); r != nil {
 			if u, ok := r.(unsupported); ok {
@@ -55,6 +108,9 @@ func (e *Engine) Verify(fc *FnContract) (rep *FuncReport) {
 	X := e.X
 	fn := fc.Fn
 	e.curName = rep.Name
+	if path != "" {
+		e.curName = rep.Name + "@" + strings.TrimPrefix(path, ".")
+	}
 	e.curProps = fc.C.Props
 	e.verifying = fn
 	st := &State{Heaps: map[string]*smt.Term{}, Cells: map[*Cell]Val{}}
